@@ -319,7 +319,7 @@ def run_case(case: dict, ctx: dict) -> dict:
         base_lang = r.choice(LANGS)
         for i in range(r.between(4, 14)):
             ro = r.sub("op", i)
-            kind = ro.weighted([("new", 2 if nb < 3 else 0), ("files", 4), ("update", 3), ("override", 5), ("create", 5), ("cli", 1), ("edit", 1)]) if nb else "new"
+            kind = ro.weighted([("new", 2 if nb < 3 else 0), ("files", 4), ("update", 3), ("override", 5), ("create", 5), ("cli", 1), ("edit", 1), ("infer", 1)]) if nb else "new"
             if kind == "new":
                 ops.append({"op": "new", "lang": base_lang if ro.chance(3, 4) else ro.choice(LANGS)})
                 nb += 1
@@ -359,6 +359,12 @@ def run_case(case: dict, ctx: dict) -> dict:
                 ops.append(o)
             elif kind == "create":
                 ops.append({"op": "create", "b": ro.below(nb)})
+            elif kind == "infer":
+                # no target language is named: it is inferred from the extension, looked up in the MERGED configuration
+                # (files may give a language another extension)
+                exts = [".h", ".hpp", ".py", ".pyi", ".hh", ".xx"]
+                docs = [{"lang": ro.choice(LANGS), "extension": ro.choice(exts)} for _ in range(ro.between(0, 2))]
+                ops.append({"op": "infer", "docs": docs, "ext": ro.choice(exts)})
             elif kind == "edit":
                 # a caller edits, in place, a list or map the configuration handed out (the only way to ADD one reserved
                 # word: overrides replace lists wholesale); that builder is not modelled any further, all OTHER builders,
@@ -485,6 +491,28 @@ def run_case(case: dict, ctx: dict) -> dict:
             trace.append("new(%s)" % op["lang"])
             bump("ops", "new")
             check_contexts(len(builders) - 1)
+            continue
+        if kind == "infer":
+            import pathlib
+
+            evaluations += 1
+            ib = LanguageContextBuilder(include_experimental_languages=True)
+            merged_ext = {sec: (v.get("extension") if isinstance(v, dict) else None) for sec, v in builtin.items()}
+            try:
+                for d in op["docs"]:
+                    sec = "nunavut.lang.%s" % d["lang"]
+                    ib.add_config_files(pathlib.Path(write_yaml(sec, {"extension": d["extension"]})))
+                    merged_ext[sec] = d["extension"]
+                ib.set_target_language_extension(op["ext"])
+                got_lang = ib.create().get_target_language().name  # type: typing.Any
+            except Exception as ex:  # pylint: disable=broad-except
+                got_lang = "raised %s" % type(ex).__name__
+            want_lang = next((sec.rsplit(".", 1)[1] for sec, e in merged_ext.items() if e == op["ext"]), "c")
+            bump("ops", "infer")
+            if got_lang != want_lang and not str(got_lang).startswith("raised"):
+                violation("target-language-inferred-from-other-than-the-merged-configuration", {"extension": op["ext"], "files": op["docs"], "inferred": got_lang, "merged_configuration_says": want_lang})
+            trace.append("infer(%s,%s)" % (op["ext"], ",".join("%s=%s" % (d["lang"], d["extension"]) for d in op["docs"])))
+            check_contexts(-1)
             continue
         if kind == "cli":
             evaluations += 1
